@@ -90,9 +90,12 @@ func (s *scStart) Configure(w *World) {
 	c.CkptInterval = time.Duration(301+100*t.Draw(6, nil)) * time.Millisecond
 	backend := Pick(t, []string{"couchbase", "couchbase-other", "file", "custom"}, []int{4, 2, 2, 2})
 	if s.prop == "C15" {
-		s.fault = Pick(t, []string{"none", "ckpt-above-high", "load-error", "load-silent", "seqnos-error", "flog-error", "sreq-error", "sreq-silent", "bad-membership", "bad-metadata"}, []int{2, 3, 2, 1, 2, 2, 3, 1, 1, 1})
+		s.fault = Pick(t, []string{"none", "ckpt-above-high", "load-error", "load-silent", "seqnos-error", "flog-error", "sreq-error", "sreq-silent", "bad-membership", "bad-metadata", "file-read-error"}, []int{2, 3, 2, 1, 2, 2, 3, 1, 1, 1, 2})
 		if s.fault == "load-error" || s.fault == "load-silent" {
 			backend = Pick(t, []string{"couchbase", "couchbase-other"}, nil) // only the Couchbase backend reads over the wire
+		}
+		if s.fault == "file-read-error" {
+			backend = "file" // the checkpoint file exists but cannot be read (EIO / EACCES / EMFILE) when the session loads it
 		}
 	}
 	switch backend {
@@ -131,6 +134,11 @@ func (s *scStart) Configure(w *World) {
 	}
 	b := w.cl.buckets[c.Bucket]
 	fileAll := t.Draw(2, nil) == 1
+	if s.fault == "file-read-error" {
+		fileAll = true
+		w.disk.failRead = Pick(t, []string{"eio", "eacces", "emfile"}, nil)
+		w.jl(&journal.Ev{K: journal.KExpect, Vb: -1, S: ""})
+	}
 	// per-vBucket history: branch uuid, high seqno, optionally a stored checkpoint
 	for vb := 0; vb < c.NVb; vb++ {
 		v := b.vbs[vb]
